@@ -328,7 +328,7 @@ def picTiming (sps payload : List UInt8) : String :=
   | .error _ => "sps:Err"
   | .ok (s, _) =>
     match SeiPayload.readPicTiming s (NalSrc.srcOfBytes payload) with
-    | .ok (p, _) => s!"Ok({Render.renderPicTiming p})"
+    | .ok (p, _) => Render.ptObs p
     | .error _ => "Err"
 
 def bufferingPeriod (st : St) (payload : List UInt8) : String :=
